@@ -33,7 +33,7 @@ Proof. split; [apply sortedb_sorted; reflexivity|]. split; [apply ssortedb_ssort
    matching pairs. *)
 Theorem inner_result_size_correct : forall L R, sorted L -> sorted R ->
   ordered_inner_map_result_size L R = Ok (len (inner_join L R)).
-Proof. intros L R HL HR. exact (inner_result_size_correct_gen L R 0 HL HR). Qed.
+Proof. exact inner_result_size_correct_top. Qed.
 Print Assumptions inner_result_size_correct.
 
 (* FULL.  ordered_inner_map (IGen: duplicates on both sides), ordered_inner_map_left_unique (ILU: left key
@@ -44,7 +44,7 @@ Theorem inner_map_kernels_correct : forall k L R l2i r2i, sorted L -> sorted R -
   (k <> IGen -> ssorted L) -> (k = IBU -> ssorted R) ->
   len l2i = len (inner_join L R) -> len r2i = len (inner_join L R) ->
   ordered_inner_map_k k L R l2i r2i = Ok (map fst (inner_join L R), map snd (inner_join L R)).
-Proof. intros k L R l2i r2i HL HR. exact (inner_map_correct_gen L R 0 HL HR k l2i r2i). Qed.
+Proof. exact inner_map_kernels_correct_top. Qed.
 Print Assumptions inner_map_kernels_correct.
 
 Example inner_map_kernels_hyps :
@@ -95,11 +95,7 @@ Theorem ordered_merge_right_inmemory_correct : forall left_on right_on srcs left
   left_unique = true ->
   exists o, ordered_merge_right ver cs left_on right_on srcs fm sinks0 mk left_unique true = Ok o /\
             oml_payloads o = Some (map (left_payload 0 right_on left_on) srcs).
-Proof.
-  intros lo ro srcs lu H1 H2 H3 H4 H5 H6 ver cs fm sinks0 mk H7 H8 ->.
-  destruct (oml_inmemory_correct ro lo srcs true H1 H2 H3 H4 H5 H6 ver cs fm sinks0 mk H7 H8) as (o & E & P & _).
-  exists o. split; [exact E|exact P].
-Qed.
+Proof. exact omr_inmemory_correct. Qed.
 Print Assumptions ordered_merge_right_inmemory_correct.
 
 (* FULL (both keys unique).  The streamed form of the repaired code — field keys, payloads, sinks and map — for
@@ -205,13 +201,7 @@ Proof. split; vm_compute; reflexivity. Qed.
 Theorem streamed_old_refuted :
   exists L R cs, sorted L /\ ssorted R /\ 1 <= cs /\ len L < cs /\
     forall m u, streamed_old L R INVALID_INDEX cs = Ok (m, u) -> m <> map snd (left_join INVALID_INDEX L R).
-Proof.
-  exists [0;2;3;4], [1;2], 8.
-  split; [apply sortedb_sorted; reflexivity|]. split; [apply ssortedb_ssorted; reflexivity|].
-  split; [lia|]. split; [reflexivity|].
-  intros m u H. rewrite (proj1 streamed_old_tail_witness) in H. injection H as <- _.
-  rewrite (proj2 streamed_old_tail_witness). discriminate.
-Qed.
+Proof. exact streamed_old_refuted_lemma. Qed.
 Print Assumptions streamed_old_refuted.
 
 Theorem streamed_old_split_run_refuted :
@@ -297,6 +287,15 @@ Theorem get_index_correct : forall T, len T <= INVALID_INDEX ->
   forall F, get_index_ok INVALID_INDEX T F (get_index T F).
 Proof. exact get_index_correct_gen. Qed.
 Print Assumptions get_index_correct.
+
+(* FULL.  What `last_index` (the specification function used above) means. *)
+Theorem get_index_last_index_meaning : forall key T,
+  match last_index key T with
+  | Some i => 0 <= i < len T /\ nthZ T i = key /\ forall i', i < i' < len T -> nthZ T i' <> key
+  | None => forall i', 0 <= i' < len T -> nthZ T i' <> key
+  end.
+Proof. exact last_index_meaning. Qed.
+Print Assumptions get_index_last_index_meaning.
 
 Example get_index_example :
   get_index [7;5;7;9] [5;7;8;9;8;6] = [1;2;INVALID_INDEX;3;INVALID_INDEX;INVALID_INDEX + 2].
